@@ -171,6 +171,7 @@ fn resolve(script: &[PStep], slots: &[Slot]) -> Vec<Step> {
             PStep::Panic => Step::Panic,
             PStep::CallAddr(s) => addr0(*s).map(|a| Step::CallAddr(a, log::uid())).unwrap_or(Step::Yield),
             PStep::WeakSelf => Step::WeakSelf,
+            PStep::TryFromRegistry(k) => Step::TryFromRegistry(*k),
         })
         .collect()
 }
